@@ -35,7 +35,8 @@ TimeStr(t) ==
     [] t.s = 1700003600 /\ t.off = 7200 -> "2023-11-15T01:13:20+02:00"
     [] t.s = 1600000000 -> "2020-09-13T05:26:40-07:00"
     [] OTHER -> "2023-11-14T22:13:21Z"
-DurStr(d) == CASE d.s = 5 -> "PT5S" [] d.s = 0 - 5 -> "-PT5S" [] d.s = 3725 -> "PT1H2M5S" [] OTHER -> "PT0S"
+DurStr(d) == CASE d.s = 5 -> "PT5S" [] d.s = 0 - 5 -> "-PT5S" [] d.s = 3725 -> "PT1H2M5S" [] d.s = 86400 -> "P1D" [] d.s = 0 - 259200 -> "-P3D"
+               [] d.s = 90000 -> "P1DT1H" [] OTHER -> "PT0S"
 
 (***************************************************************************)
 (* Presentation: st = [item |-> "min" | "arr", items |-> "arr" | "min",    *)
